@@ -9,15 +9,19 @@
                 | I<id>:<prev>:<next>:<right>:<intcell>,…   interior  intcell  ::= <left>.<key>[@p1+p2…]
                 | O<id>:<next>                               overflow link or free page
                 | B<id>                                      unreadable / malformed page
+                | S<id>:<free_space>:<free_space_ptr>:<offset>+<size>,…   slot accounting of B-tree page <id> (slot order)
   Only pages whose token changed since the previous operation are listed (the driver keeps the page table).
   A key that could not be decoded is `!`; a payload that is not the pattern of its (len, seed) has seed 99999.
 
   Verdict `ok` iff, after **every** operation: the result, both probes of the operation's key, the forward and backward
   scan (hashes over the whole contents), every 16th operation the probe of all keys of the case, are what the spec map
-  says; `checkTree` accepts the dump; and `toList dump` = the spec map.
+  says; `checkTree` accepts the dump; `toList dump` = the spec map; and every page of the tree passes the slotted-page
+  accounting check `Slotted.wfB`.
 -/
 import AxVerif.Model.BTree
 import AxVerif.Model.Balance
+import AxVerif.Model.Slotted
+import AxVerif.Generated.BTree
 namespace AxVerif.BTreeDriver
 open AxVerif.BTree
 
@@ -185,13 +189,34 @@ def whyNot (d : Dump) : String :=
 structure St where
   spec : List (Nat × Val) := []
   pages : Array (Option Page) := #[]
+  slotted : Array (Option Slotted.SPage) := #[]
   root : Nat := 0
+
+def parseSlotted (cap : Nat) (tok : String) : Option (Nat × Slotted.SPage) :=
+  match ((tok.drop 1).toString).splitOn ":" with
+  | [id, free, fsp, cells] =>
+    let cs : Option (List (Nat × Nat)) :=
+      if cells.isEmpty then some []
+      else allSome ((cells.splitOn ",").map fun c =>
+        match c.splitOn "+" with
+        | [o, sz] => match o.toNat?, sz.toNat? with
+          | some o, some sz => some (o, sz)
+          | _, _ => none
+        | _ => none)
+    match id.toNat?, free.toNat?, fsp.toNat?, cs with
+    | some id, some free, some fsp, some cs => some (id, { cap := cap, slots := cs, fsp := fsp, free := free })
+    | _, _, _, _ => none
+  | _ => none
+
+def setSlotted (a : Array (Option Slotted.SPage)) (id : Nat) (p : Slotted.SPage) : Array (Option Slotted.SPage) :=
+  let a := if id < a.size then a else a ++ Array.replicate (id + 1 - a.size) none
+  a.setIfInBounds id (some p)
 
 def field (ws : List String) (pfx : String) : Option String :=
   (ws.find? (·.startsWith pfx)).map (fun w => (w.drop pfx.length).toString)
 
 /-- judge one operation's observation; `Except.error why` = inadmissible -/
-def stepObs (i : Nat) (keys : List Nat) (st : St) (op : COp) (obs : String) : Except String St := do
+def stepObs (cap : Nat) (i : Nat) (keys : List Nat) (st : St) (op : COp) (obs : String) : Except String St := do
   let ws := splitWords obs
   let (spec', res) := specStep st.spec op.toOp
   let need (name : String) : Except String String :=
@@ -228,13 +253,26 @@ def stepObs (i : Nat) (keys : List Nat) (st : St) (op : COp) (obs : String) : Ex
       match parsePageTok w with
       | some (id, p) => pages := setPage pages id p
       | none => throw s!"op{i} malformed page token"
+  let mut slotted := st.slotted
+  for w in ws do
+    if (w.take 1).toString == "S" then
+      match parseSlotted cap w with
+      | some (id, p) => slotted := setSlotted slotted id p
+      | none => throw s!"op{i} malformed slotted token"
   let d := ({ root := root, pages := pages } : DumpData).toDump
   if !checkTree d then throw s!"op{i} checkTree rejects: {whyNot d} (rust checker: {c})"
   if toList d != spec' then throw s!"op{i} contents differ from the spec map"
   if c != "ok" then throw s!"op{i} checkers disagree: lean accepts, rust says {c}"
-  pure { spec := spec', pages := pages, root := root }
+  match treeOf d with
+  | none => pure ()
+  | some t =>
+    for id in t.ids do
+      match (slotted[id]?).join with
+      | some p => if !Slotted.wfB p then throw s!"op{i} slotted-page accounting broken on page {id}"
+      | none => throw s!"op{i} no slot accounting for page {id}"
+  pure { spec := spec', pages := pages, slotted := slotted, root := root }
 
-def judgeSeq (ops : List COp) (obs : String) : String :=
+def judgeSeq (cap : Nat) (ops : List COp) (obs : String) : String :=
   let gat := (obs.splitOn " ## ").headD ""
   if !gat.startsWith "obs " then s!"bad implementation failed: {gat.take 60}"
   else
@@ -244,7 +282,7 @@ def judgeSeq (ops : List COp) (obs : String) : String :=
     -- that operation, so running out of observations is itself inadmissible
     let rec go (i : Nat) (st : St) : List COp → List String → String
       | op :: ops, o :: os =>
-        match stepObs i keys st op o with
+        match stepObs cap i keys st op o with
         | .ok st' => go (i + 1) st' ops os
         | .error e => "bad " ++ e
       | [], [] => "ok"
@@ -264,7 +302,11 @@ def judge (line : String) : String :=
     if head.startsWith "seq:" then
       match parseCase c with
       | none => if gat = "bad-op" then "ok" else "bad malformed case accepted"
-      | some ops => if gat = "bad-op" then "bad well-formed case rejected" else judgeSeq ops obs
+      | some ops =>
+        if gat = "bad-op" then "bad well-formed case rejected"
+        else
+          let ps := ((head.splitOn ":").getD 1 "4096").toNat?.getD 4096
+          judgeSeq (ps - Generated.BTree.btreeHeaderSize) ops obs
     else if head.startsWith "cmp:" then
       match c.splitOn " " with
       | [_, a, b] =>
